@@ -336,15 +336,27 @@ func runC41(c *core.Ctx) {
 	}
 
 	// ---------- counting
-	isSigs := func(v ssa.Value) bool { _, f, ok := fieldLoad(v); return ok && f == "EndorseSigs" }
+	isSigs := func(v ssa.Value) bool { _, f, ok := fieldLoad(ir.Strip(v)); return ok && f == "EndorseSigs" }
 	for _, name := range []string{"BlockPool.endorseDone", "BlockPool.endorseFailed", "BlockPool.commitDone"} {
 		fn := c.Fn(pkVbft, name)
 		if fn == nil {
 			continue
 		}
 		outer := eng.FindMapLoops(fn, isSigs)
+		top := fn
+		if len(outer) == 0 {
+			// the pass may stand in a same-package helper handed the map
+			hosts, releaseHosts := hostsWithHelpers(fn)
+			for _, h := range hosts[1:] {
+				if ls := eng.FindMapLoops(h, isSigs); len(ls) == 1 && len(outer) == 0 {
+					outer, fn = ls, h
+					c.Attribute(h, top)
+				}
+			}
+			releaseHosts()
+		}
 		if len(outer) != 1 {
-			c.Broken("C41.count", fn, "one pass over EndorseSigs (keyed by participant)", c.P.Rel(fn.Pos()), sprintf("%d loops", len(outer)))
+			c.Broken("C41.count", top, "one pass over EndorseSigs (keyed by participant)", c.P.Rel(top.Pos()), sprintf("%d loops", len(outer)))
 			continue
 		}
 		lp := outer[0]
@@ -468,22 +480,47 @@ func runC41(c *core.Ctx) {
 				continue // the recover block re-returns the named results after a panic
 			}
 			pv := resultValueAt(ret, 0)
-			for _, l := range eng.PhiLeaves(nil, pv) {
-				if k, okk := ir.ConstInt(l); okk && k == 4294967295 {
-					continue // sentinel: the answer is taken only when proposer != MaxUint32
+			var decide func(host *ssa.Function, v ssa.Value, depth int)
+			decide = func(host *ssa.Function, v ssa.Value, depth int) {
+				for _, l := range eng.PhiLeaves(nil, v) {
+					if k, okk := ir.ConstInt(l); okk && k == 4294967295 {
+						continue // sentinel: the answer is taken only when proposer != MaxUint32
+					}
+					if pp, isP := l.(*ssa.Parameter); isP && ir.Strip(pp) != ssa.Value(pp) {
+						decide(host, ir.Strip(pp), depth) // a helper handed the caller's current answer
+						continue
+					}
+					if cl, idx := ir.CallOf(l); cl != nil && idx == 0 && gcc != nil && cl.Common().StaticCallee() == gcc {
+						c.Hold("C41.threshold", fn, "decided proposer may be getCommitConsensus's answer", c.P.Rel(cl.Pos()), "")
+						continue
+					}
+					// a same-package helper that scans the endorsements and answers the proposer
+					if cl, idx := ir.CallOf(l); cl != nil && depth < 2 {
+						if h := cl.Common().StaticCallee(); h != nil && h.Pkg == fn.Pkg && h != gcc && len(h.Blocks) > 0 {
+							if idx < 0 {
+								idx = 0
+							}
+							undo := ir.BindParams(h, cl.Common().Args)
+							c.Attribute(h, fn)
+							for _, b := range h.Blocks {
+								if r2, isRet := b.Instrs[len(b.Instrs)-1].(*ssa.Return); isRet && idx < len(r2.Results) {
+									decide(h, r2.Results[idx], depth+1)
+								}
+							}
+							undo()
+							continue
+						}
+					}
+					li, isI := l.(ssa.Instruction)
+					if !isI || !isFieldOf("EndorsedProposer", nil)(l) {
+						c.Violate("C41.threshold", fn, "decided proposer comes from the commit-message quorum or an endorsement count", c.P.Rel(ret.Pos()), "unexpected source "+l.Name())
+						continue
+					}
+					eng.Dominates(c, "C41.threshold", host, relGuard("endorseCnt[p] > N-1-C", func(v ssa.Value) bool { _, ok := ir.Strip(v).(*ssa.Lookup); return ok }, isQuorum, token.GTR),
+						[]ir.Sink{{Instr: li, Note: "proposer := sig.EndorsedProposer"}}, "proposer decided from endorsements", nil)
 				}
-				if cl, idx := ir.CallOf(l); cl != nil && idx == 0 && gcc != nil && cl.Common().StaticCallee() == gcc {
-					c.Hold("C41.threshold", fn, "decided proposer may be getCommitConsensus's answer", c.P.Rel(cl.Pos()), "")
-					continue
-				}
-				li, isI := l.(ssa.Instruction)
-				if !isI || !isFieldOf("EndorsedProposer", nil)(l) {
-					c.Violate("C41.threshold", fn, "decided proposer comes from the commit-message quorum or an endorsement count", c.P.Rel(ret.Pos()), "unexpected source "+l.Name())
-					continue
-				}
-				eng.Dominates(c, "C41.threshold", fn, relGuard("endorseCnt[p] > N-1-C", func(v ssa.Value) bool { _, ok := ir.Strip(v).(*ssa.Lookup); return ok }, isQuorum, token.GTR),
-					[]ir.Sink{{Instr: li, Note: "proposer := sig.EndorsedProposer"}}, "proposer decided from endorsements", nil)
 			}
+			decide(fn, pv, 0)
 			// and the answer is given only when proposer != sentinel
 			eng.Dominates(c, "C41.threshold", fn, relGuard("proposer != MaxUint32", func(v ssa.Value) bool { return v == pv }, isConstInt(4294967295), token.NEQ), []ir.Sink{s}, "committed answer", nil)
 		}
